@@ -52,7 +52,18 @@ Clauses(e) ==
 (* the subclass event: the child's configuration is the merge *)
 SubclassOK(e) == ElemSame(e.child, Merge(e.parent, e.child.name, e.dkw, e.dprops))
 
+(* a whole batch of validation calls (the value universe, each value twice) on one   *)
+(* parsed document of the document family: the element tree must be unchanged        *)
+Sweep(e) ==
+      (IF ~ElemSame(e.pre, e.post) THEN {"C08:tree-changed"} ELSE {})
+ \cup (IF ~(e.flags.reprSame /\ e.flags.jsonSame /\ e.flags.pySame) THEN {"C08:serialization-changed"} ELSE {})
+ \cup (IF ~e.flags.snapSame THEN {"C08:attributes-rewritten"} ELSE {})
+ \cup (IF ~e.flags.inputSame THEN {"C08:input-changed"} ELSE {})
+ \cup (IF ~e.flags.repeatSame THEN {"C08:not-repeatable"} ELSE {})
+ \cup (IF ~(e.flags.eqFreshBefore => e.flags.eqFreshAfter) THEN {"C08:no-longer-equals-fresh-copy"} ELSE {})
+
 Judge(e) == IF e.op = "subclass" THEN (IF SubclassOK(e) THEN {} ELSE {"C15:merge-wrong"})
+            ELSE IF e.op = "sweep" THEN Sweep(e)
             ELSE Clauses(e)
 Inv == i = 0 \/ Judge(Events[i]) = {}
          \/ PrintT(ToJson([reject |-> Events[i].id, clauses |-> Judge(Events[i])]))
